@@ -1,7 +1,7 @@
 (** C08 — Event log is append-only, stably ordered; range queries return exact windows.
     Only property statements live here; each is closed by [exact] of a lemma proved in
     Proofs/, and followed by Print Assumptions. *)
-From Orbit Require Import Spec.Statements Proofs.WindowProofs Proofs.GlobalProofs.
+From Orbit Require Import Spec.Statements Proofs.WindowProofs Proofs.GlobalProofs Spec.GlobalExt Proofs.GlobalExtProofs.
 
 (** A query by gt/gte/lt/lte and amount on a duplicate-free listing [L] returns exactly
     the contiguous window [window L b a] (defined directly as a slice in Spec/Window.v),
@@ -61,3 +61,14 @@ Proof.
   cbv zeta. split; [|split]; try reflexivity.
   repeat constructor; simpl; intuition discriminate.
 Qed.
+
+(** The same for the extended system with the load routes (load from disk, snapshot). *)
+Theorem C08_monotone_all_routes :
+  forall marks cont acc n dbid okop g s i rs rs',
+    greach2 marks cont acc okop n dbid g -> admissible2 okop g s ->
+    nth_error (greps g) i = Some rs ->
+    nth_error (greps (gstep2_run marks cont acc g s)) i = Some rs' ->
+    incl (values (rlog rs)) (values (rlog rs')) /\
+    forall x y, before x y (values (rlog rs)) -> before x y (values (rlog rs')).
+Proof. exact step2_monotone. Qed.
+Print Assumptions C08_monotone_all_routes.
